@@ -5,4 +5,3 @@ func factsManager(o *out, mgr pkgFiles)      {}
 func factsClient(o *out, mgr pkgFiles)       {}
 func factsSuite(o *out, suite pkgFiles)      {}
 func factsDecoders(o *out, res pkgFiles)     {}
-func factsBootstrap(o *out, mgr pkgFiles)    {}
